@@ -20,7 +20,7 @@ PROPS = {
         "exhaustive": True,
         "exhaustive_tables": ["every unary/binary rule over all 80 correctness values (80, 80^2)", "and_or over 80^3",
                               "every malleability rule over all 12 values (12, 12^2, 12^3)", "Type::* unary over all 960 types"],
-        "rule": "complete rule tables of the implementation compared entry by entry with the Lean model (C lines) and with the specification tables (J lines); thresholds exhaustive for small n plus random child lists.",
+        "rule": "complete rule tables of the implementation compared entry by entry with the Lean model (C lines) and with the specification tables (J lines); thresholds exhaustive for small n plus random child lists. `C typeof`: `Miniscript::ty` of whole ASTs (enumerated pool with full atoms, raw pkh, sugar shapes, every subterm of the shared designated corpus incl. wrapper towers, unchecked combinators) against the model's typeOf through THREE routes: from_ast, the text parser (to_string -> from_str_with_validation_params(MAX)) and the script decoder (encode -> decode_with_validation_params(MAX)); ill-typed trees must be refused.",
         "tier_proved": "T1-T4: all rules exact on the complete domain; thresholds for all k, n by induction",
         "partial_gaps": [],
         "level_text": "Every typing rule of the library is proved (Lean kernel) equal to the specification's row on the complete finite domain of child types (80x12 per child), thresholds for every k and n by induction; the Lean model of the rules is compared with the implementation on the complete tables on every run, and the implementation's tables are additionally judged directly against the specification tables.",
